@@ -17,9 +17,9 @@ func (r *Rng) Intn(n int) int {
 	}
 	return int(r.U64() % uint64(n))
 }
-func (r *Rng) Bool() bool       { return r.U64()&1 == 1 }
-func (r *Rng) Chance(p int) bool { return r.Intn(100) < p }
-func (r *Rng) Fork() *Rng       { return &Rng{r.U64()} }
+func (r *Rng) Bool() bool          { return r.U64()&1 == 1 }
+func (r *Rng) Chance(p int) bool   { return r.Intn(100) < p }
+func (r *Rng) Fork() *Rng          { return &Rng{r.U64()} }
 func Pick[T any](r *Rng, xs []T) T { return xs[r.Intn(len(xs))] }
 func Shuffle[T any](r *Rng, xs []T) {
 	for i := len(xs) - 1; i > 0; i-- {
